@@ -106,10 +106,11 @@ Proof.
         repeat (match type of Hl with (if ?c then _ else _) = _ => destruct c end); inversion Hl; subst; (split; [discriminate|]); intros s0 E; inversion E; reflexivity. }
     destruct Hx as [H1 H2]. split; [exact H1|]. split; [intros _; exact H2|].
     assert (Hp : exists mn mx, p = ex_leaf mn mx None) by (destruct Hin as [Hin|[Hin|[Hin|[]]]]; inversion Hin; subst; eexists; eexists; reflexivity).
-    destruct Hp as (mn & mx & ->). split; [|split; [|split; [|exact I]]].
+    destruct Hp as (mn & mx & ->). split; [|split; [|split; [|split; [|exact I]]]].
     + intros (c & m & E & Ht & _). inversion E; subst c; discriminate.
     + intros (ik & c & it & E & _). inversion E.
     + intros (ik & c & a & E & _). inversion E.
+    + intros (c & l & E & Ht & _). inversion E; subst c; discriminate.
 Qed.
 
 (* ---------- an instance of the anyOf statement: anyOf of {a: string, required} and {b: integer, required} (AnyOfP.ex_any) ---------- *)
@@ -149,13 +150,14 @@ Proof.
       intros k p x Hin Hl. destruct Hin as [Hin|[]]. inversion Hin; subst k p.
       assert (Hx : x = JStr [120]%N) by (destruct Hkv as [<-|[<-|[<-|[<-|[]]]]]; vm_compute in Hl; inversion Hl; reflexivity). subst x.
       split; [discriminate|]. split; [intros _ s0 E; inversion E; reflexivity|]. split; [intros (c & m & E & Ht & _); inversion E; subst c; discriminate|].
-      split; [intros (ik & c & it & E & _); inversion E|]. split; [intros (ik & c & a & E & _); inversion E|exact I].
+      split; [intros (ik & c & it & E & _); inversion E|]. split; [intros (ik & c & a & E & _); inversion E|].
+      split; [intros (c & l & E & Ht & _); inversion E; subst c; discriminate|exact I].
     + exists 0, None, true, [84; 95; 49]%N. eexists. split; [discriminate|]. split; [apply ob_sobj; [discriminate|right; reflexivity]|]. split; [|vm_compute; reflexivity].
       cbn [dok]. split; [destruct Hkv as [<-|[<-|[<-|[<-|[]]]]]; repeat constructor; cbn; intuition discriminate|].
       intros k p x Hin Hl. destruct Hin as [Hin|[]]. inversion Hin; subst k p.
       assert (Hx : x = JInt 1 \/ x = JStr [121]%N) by (destruct Hkv as [<-|[<-|[<-|[<-|[]]]]]; vm_compute in Hl; inversion Hl; auto).
       split; [destruct Hx as [-> | ->]; discriminate|]. split; [intros (c & E & Ht & _); inversion E; subst c; discriminate|].
-      split; [|split; [intros (ik & c & it & E & _); inversion E|split; [intros (ik & c & a & E & _); inversion E|exact I]]].
+      split; [|split; [intros (ik & c & it & E & _); inversion E|split; [intros (ik & c & a & E & _); inversion E|split; [intros (c & l & E & _ & _ & He & _); inversion E; subst c; discriminate|exact I]]]].
       intros _. split; [destruct Hx as [-> | ->]; discriminate|]. intros n0 E. destruct Hx as [-> | ->]; inversion E. exists 1%Z. split; reflexivity.
   - intros bt [<-|[<-|[]]]; destruct Hkv as [<-|[<-|[<-|[<-|[]]]]]; vm_compute; split; discriminate.
 Qed.
